@@ -487,3 +487,31 @@ Proof.
     + intros k. rewrite GMX509KeyPairsSingle_sm2_iff. apply HQ.
     + discriminate.
 Qed.
+
+(* ---------- Round 6: the loaders decide on the SCALAR of the key file ------------------------------------------------ *)
+(* parsePrivateKey on a PKCS#8 SM2 block: the key kind the loaders compare is what ParsePKCS8UnecryptedPrivateKey returns *)
+Definition sm2_key_of (r : outcome (N * N * N)) : keyk :=
+  match r with Ok (_, x, y) => KSm2 x y | _ => KBad end.
+
+(* A PKCS#8 file with scalar d whose optional publicKey field holds ANY pair (x, y) - its own point, somebody else's, the
+   certificate's - is accepted with an SM2 certificate of the point (cx, cy) exactly when [d]G = (cx, cy): the embedded
+   copy has no say, in either slot of the dual loader. *)
+Lemma loaders_decide_on_scalar : forall (base_mult : N -> N * N) d x y tail cx cy, d < sm2N ->
+  let k := sm2_key_of (ParsePKCS8UnecryptedPrivateKey base_mult (MarshalSm2UnecryptedPrivateKey d x y ++ tail)) in
+  (X509KeyPair (CEc O cx cy) k = true <-> base_mult d = (cx, cy))
+  /\ (GMX509KeyPairsSingle (CEc O cx cy) k = true <-> base_mult d = (cx, cy))
+  /\ (forall ec ek, GMX509KeyPairs (CEc O cx cy) k ec ek = true <-> base_mult d = (cx, cy) /\ sm2_pair ec ek)
+  /\ (forall sc sk, GMX509KeyPairs sc sk (CEc O cx cy) k = true <-> sm2_pair sc sk /\ base_mult d = (cx, cy)).
+Proof.
+  intros bm d x y tail cx cy Hd. rewrite (pkcs8_plain bm d x y tail Hd).
+  destruct (bm d) as [X Y]. cbn [sm2_key_of].
+  assert (HK : key_matches (CEc O cx cy) (KSm2 X Y) <-> (X, Y) = (cx, cy)).
+  { simpl. split; [intros (_ & -> & ->); reflexivity|intros H; inversion H; auto]. }
+  assert (HP : sm2_pair (CEc O cx cy) (KSm2 X Y) <-> (X, Y) = (cx, cy)).
+  { unfold sm2_pair. split.
+    - intros (a & b & H1 & H2). inversion H1. inversion H2. subst. reflexivity.
+    - intros H. inversion H. eauto. }
+  split; [rewrite X509KeyPair_sm2_iff; exact HK|].
+  split; [rewrite GMX509KeyPairsSingle_sm2_iff; exact HK|].
+  split; intros; rewrite GMX509KeyPairs_iff; tauto.
+Qed.
